@@ -193,6 +193,9 @@ def run(tier):
             stats["shows"] += 1
             show, live, again = ks_of(by.get((i, "show"))), ks_of(by.get((i, "live"))), ks_of(by.get((i, "show_again")))
             where = f"SHOW at step {i} ({variant})"
+            if any(v is not None and None in v for v in (show, live, again)):
+                chk.violation(f"{where}: a returned row has no value in column k: show={show} live={live} again={again}", rep)
+                break
             if show is None or live is None or again is None:
                 chk.violation(f"{where}: a command failed: {[(by.get((i, k)) or {}).get('status') for k in ('show', 'live', 'show_again')]} "
                               f"{(by.get((i, 'show')) or {}).get('message')}", rep)
